@@ -119,6 +119,9 @@ def fro_all(FA):
         "matrix_norm.fro": u.matrix_norm(Aq, "fro"),
         "matrix_norm.F": u.matrix_norm(Aq, "F"),
         "normQ": u.normQ(Aq),
+        # the four planes held as numpy.matrix objects (what .todense() returns) and, for small integers, as int16 arrays
+        "normQsparse.numpy-matrix": u.normQsparse(*[np.asmatrix(c) for c in comps]),
+        **({"normQsparse.int16": u.normQsparse(*[c.astype(np.int16) for c in comps])} if np.array_equal(np.rint(FA), FA) and np.all(np.abs(FA) < 2 ** 14) else {}),
         "normQsparse.dense": u.normQsparse(*comps),
         "normQsparse.sparse": u.normQsparse(*[sparse.csr_matrix(c) for c in comps]),
         "tensor_frobenius_norm": t.tensor_frobenius_norm(Aq.reshape(Aq.shape + (1,))),
